@@ -46,6 +46,8 @@ func runC16(p *Prog, r *Report) {
 	ruleLayout(p, r, "fontscan", fontscanPairs, []string{"systemFontsIndex.serializeToFile", "deserializeIndexFile"}, 10)
 	r.Explain = append(r.Explain, "R-STAMP: every os.FileInfo that reaches newTimeStamp — the stamp stored in the index and compared to decide whether a previous scan is reused — comes (through parameters, up the call graph) from a stat that follows symbolic links (os.Stat, (*os.File).Stat), or from os.Lstat / fs.DirEntry.Info only where the entry was tested not to be a link. A necessary condition of 'incremental refresh == scan from scratch' when the target of a link is replaced or touched; the refresh over file-system histories itself is not decided.")
 	ruleStamp(p, r, "fontscan", "newTimeStamp", 1)
+	r.Explain = append(r.Explain, "R-DRAIN: a function that reads the index through a gzip reader returns success only after io.Copy / io.ReadAll has read that reader to its end and its error was tested, on every path: the CRC-32 of the gzip trailer is verified only there, so a corrupted cache gives an error instead of stale or damaged footprints that an incremental refresh would keep.")
+	ruleDrain(p, r, "fontscan", 1)
 	r.Assumptions = append(r.Assumptions, "integer overflow of offset arithmetic is not modelled", "compress/gzip and bytes.Buffer are trusted", "incremental refresh versus from-scratch scan over file-system histories is behaviour over an external mutable world and is NOT decided; of the round trip only the writer/reader layout agreement (R-LAYOUT) is decided, not the values")
 	r.NotDecided = append(r.NotDecided, "round-trip equality of the index beyond layout agreement (values, clamping, NaN)", "refresh equals rescan after any history of file-system changes")
 }
@@ -98,6 +100,7 @@ func ruleErr(p *Prog, r *Report) {
 }
 
 func controlsC16(cp *Prog, r *Report) {
+	expectControl(r, "R-DRAIN", func(cr *Report) { ruleDrain(cp, cr, "stamp", 2) }, "stamp.readBad/success")
 	expectControl(r, "R-STAMP", func(cr *Report) {
 		ruleStamp(cp, cr, "stamp", "newStampGood", 1)
 		ruleStamp(cp, cr, "stamp", "newStampBad", 1)
